@@ -364,6 +364,7 @@ class simulation_model():
         :param t:
         :return:
         """
+        t = grid_time(t, self.dt, self.starttime)
         rate = 1.0 / (1.0 + p) ** (t - self.dt - self.starttime + self.dt)
         return initial if (t <= self.starttime) else ( self.npv(initial, p, t - self.dt) + (self.dt * rate * initial) )# Recurse
 
@@ -382,7 +383,7 @@ class simulation_model():
 
         i = 0
         try:
-            i = 0 if t <= self.starttime + self.dt else self.memo[myname][t-self.dt]
+            i = 0 if t <= self.starttime + self.dt else self.memo[myname][grid_time(t-self.dt, self.dt, self.starttime)]
         except:
             pass
 
@@ -466,6 +467,7 @@ class simulation_model():
             :param t:
             :return:
             """
+            t = grid_time(t, self.dt, self.starttime)
             if not eq in memo.keys(): memo[eq] = {}
             mymemo = memo[eq]
             if t in mymemo.keys(): return mymemo[t]
@@ -505,6 +507,7 @@ class simulation_model():
             :param t:
             :return:
             """
+            t = grid_time(t, self.dt, self.starttime)  # t - dt carries floating point error: key and start test need the grid value
             if not eq in memo.keys(): memo[eq] = {}
             mymemo = memo[eq]
             if t in mymemo.keys():return mymemo[t]
@@ -545,6 +548,7 @@ class simulation_model():
             :param t:
             :return:
             """
+            t = grid_time(t, self.dt, self.starttime)
             mymemo = memo[eq]
             if t in mymemo.keys(): return mymemo[t]
             else:
